@@ -77,27 +77,31 @@ Fixpoint q_run (s : qstate) (ops : list qop) : qstate * list pobs :=
   | o :: r => let '(s1, ob) := q_step s o in let '(s2, obs) := q_run s1 r in (s2, ob :: obs)
   end.
 
-(* ---- a live iterator kept across other calls: it = iter(parser); next(it) ... feed ... next(it) ----
-   Parser.__iter__ is a generator: each next() tests the queue anew; once it found the queue empty it is finished for good. *)
-Record istate := { i_p : pstate; i_it : option bool }.      (* None: no iterator yet; Some true: live; Some false: finished *)
-Inductive iop := IOp (o : pop) | INew | INext.
+(* ---- live iterators kept across other calls: it = iter(parser); next(it) ... feed ... next(it) ----
+   Parser.__iter__ is a generator: each next() tests the queue anew; once it found the queue empty it is finished for good.  Any number of
+   iterators may be alive at once; they all pop from the one queue. *)
+Record istate := { i_p : pstate; i_it : list bool }.      (* one flag per iterator created so far: true = live, false = finished *)
+Inductive iop := IOp (o : pop) | INew | INext | INextK (k : nat).   (* INext: next() on the newest iterator; INextK k: on the k-th *)
+Definition set_flag (l : list bool) (k : nat) (b : bool) : list bool := firstn k l ++ match skipn k l with [] => [] | _ :: r => b :: r end.
+Definition i_next (s : istate) (k : nat) : istate * pobs :=
+  match nth_error (i_it s) k with
+  | Some true =>
+      match p_q (i_p s) with
+      | m :: r => ({| i_p := {| p_tok := p_tok (i_p s); p_q := r |}; i_it := i_it s |}, OGet (Some m))
+      | [] => ({| i_p := i_p s; i_it := set_flag (i_it s) k false |}, OGet None)
+      end
+  | _ => (s, OGet None)
+  end.
 Definition i_step (s : istate) (o : iop) : istate * pobs :=
   match o with
   | IOp o' => let '(p', ob) := p_step (i_p s) o' in ({| i_p := p'; i_it := i_it s |}, ob)
-  | INew => ({| i_p := i_p s; i_it := Some true |}, ONone)
-  | INext =>
-      match i_it s with
-      | Some true =>
-          match p_q (i_p s) with
-          | m :: r => ({| i_p := {| p_tok := p_tok (i_p s); p_q := r |}; i_it := Some true |}, OGet (Some m))
-          | [] => ({| i_p := i_p s; i_it := Some false |}, OGet None)
-          end
-      | _ => (s, OGet None)
-      end
+  | INew => ({| i_p := i_p s; i_it := i_it s ++ [true] |}, ONone)
+  | INext => i_next s (pred (length (i_it s)))
+  | INextK k => i_next s k
   end.
 Fixpoint i_run (s : istate) (ops : list iop) : istate * list pobs :=
   match ops with
   | [] => (s, [])
   | o :: r => let '(s1, ob) := i_step s o in let '(s2, obs) := i_run s1 r in (s2, ob :: obs)
   end.
-Definition i_init : istate := {| i_p := p_init; i_it := None |}.
+Definition i_init : istate := {| i_p := p_init; i_it := [] |}.
